@@ -183,6 +183,12 @@ def run(tier, seed):
     labels6 = {c[4]: (c[0], c[1], c[2], c[3]) for i, c in enumerate(g6) if i in k6}
     do_source('S6-granularity', '\n'.join(c[3] for i, c in enumerate(g6) if i in k6) + '\n', sorted(labels6), [(2000, 2050)], labels=labels6, stricts=(False, True),
               arduino={'step': 3600, 'win': 2 * 3600})
+    # ---- S11: the layouts zic accepts for the same zone
+    for var, t11, z11, l11 in mutants.layout_source():
+        tabs11 = do_source('S11-layout-' + var, t11, z11 + sorted(l11), [(2000, 2050)])
+        # all variants are the same zone: zic must see two eras in each (guards the family itself)
+        if len({r[1] for r in tabs11[z11[0]]}) < 3:
+            raise Broken('layout variant %s is not a two-era zone for zic' % var)
     # ---- S10: Link lines in every relation to zones and to each other
     t10, z10, l10 = mutants.link_source()
     do_source('S10-links', t10, z10 + sorted(l10), [(2000, 2050)], arduino={'step': 6 * 3600, 'win': 3600})
